@@ -202,6 +202,18 @@ def check_amp(case):
     want = ra.concat_piece(a) + ra.concat_piece(b)
     if r['error'] is not None or not isinstance(r['result'], str) or r['result'] != want:
         raise Violation('%r & %r -> %r, expected %r' % (a, b, r['error'] or r['result'], want), r['error'] or enc(r['result']), want)
+    if isinstance(a, int) and isinstance(b, int) and abs(a) < 10 ** 9 and abs(b) < 10 ** 9:
+        # the sum / difference / product of two integers is an integer and joins as its digits - also after
+        # floats of the same values have been through the arithmetic of the same process
+        env = Env(vars={'v_a': a, 'v_b': b, 'v_fa': float(a), 'v_fb': float(b)})
+        env.parse('{v_fa*1,v_fb+0,v_fa-v_fb,TRUE+0}')
+        for op, val in (('+', a + b), ('-', a - b), ('*', a * b)):
+            r = env.parse('(v_a%sv_b)&"x"' % op)
+            if r['error'] is not None or r['result'] != str(val) + 'x':
+                raise Violation('(%r %s %r) & "x" -> %r, expected %r (integers join as their digits)' % (a, op, b, r['error'] or r['result'], str(val) + 'x'), r['error'] or enc(r['result']), str(val) + 'x')
+            r = env.parse('v_a%sv_b' % op)
+            if r['error'] is not None or isinstance(r['result'], bool) or not isinstance(r['result'], int) or r['result'] != val:
+                raise Violation('%r %s %r -> %r, expected the integer %r' % (a, op, b, r['error'] or r['result'], val), r['error'] or enc(r['result']), val)
     if case['c'] is not None:
         c = case['c']
         kw = {'vars': {'v_a': a, 'v_b': b, 'v_c': c}}
@@ -245,7 +257,7 @@ LAWS = [
         classes=lambda c: (('blank' if c['a'] is None or c['b'] is None else 'noblank'), ('int' if isinstance(c['a'], int) or isinstance(c['b'], int) else 'text')), required=('blank', 'int'),
         key=lambda c: 'blank-operand' if (c['a'] is None or c['b'] is None or c['c'] is None and False) else '',
         quick=3000, thorough=100000, shards=(4, 8), nontrivial=lambda c: c['a'] is None or c['b'] is None or isinstance(c['a'], int) or isinstance(c['b'], int),
-        rule='a & b (& c) over text, integers and blank: text verbatim, integers as their digits, blank as nothing'),
+        rule='a & b (& c) over text, integers and blank: text verbatim, integers as their digits, blank as nothing; for integer a, b also (a+b)&"x", (a-b)&"x", (a*b)&"x" after floats of the same values were evaluated: integer arithmetic stays integer'),
 ]
 
 LEVEL_TEXT = 'Hypothesis exploration over all 11x11 operand-class pairs and four operators (every class required on both sides) against a reference transcribed from the statement: numeric values, where a date comes back, error outcomes, element-wise arrays; commutativity as a metamorphic relation; concatenation against Python strings.'
